@@ -32,31 +32,32 @@ def typeOf (nal : Bytes) : Nat := match nal with | [] => 0 | h :: _ => hType h
 /-! ### a packetisation plan: what goes into which kind of packet -/
 inductive Item where
   | single (nal : Bytes)
-  | stapA (nals : List Bytes)
+  | stapA (hdr : UInt8) (nals : List Bytes)    -- `hdr` = the STAP-A NAL header octet as sent
   | fuA (hdr : UInt8) (chunks : List Bytes)   -- the unit `hdr :: chunks.flatten`, cut as given
   deriving DecidableEq, Repr, Inhabited
 
 /-- the NAL units an item carries -/
 def Item.nals : Item → List Bytes
   | .single n => [n]
-  | .stapA ns => ns
+  | .stapA _ ns => ns
   | .fuA h cs => [h :: cs.flatten]
 
 /-- what IsPartitionHead must report on the payloads of an item: true on the first only -/
 def Item.heads : Item → List Bool
   | .single _ => [true]
-  | .stapA _ => [true]
+  | .stapA _ _ => [true]
   | .fuA _ cs => match cs with | [] => [] | _ :: t => true :: List.replicate t.length false
 
 /-- an item the RFC allows (and the decoder can represent: FU-A reassembly cannot carry F = 1) -/
 def Item.wf : Item → Bool
   | .single n => decide (1 ≤ typeOf n ∧ typeOf n ≤ 23)
-  | .stapA ns => !ns.isEmpty && ns.all (fun n => decide (n.length < 65536))
+  | .stapA h ns => decide (hType h = 24) && !ns.isEmpty && ns.all (fun n => decide (n.length < 65536))
   | .fuA h cs => decide (hF h = 0) && decide (2 ≤ cs.length)
 
 def size16 (n : Nat) : Bytes := [(n / 256).toUInt8, (n % 256).toUInt8]
 
-/-- STAP-A header: F = OR of the F bits, NRI = maximum NRI, type 24 -/
+/-- the STAP-A header the RFC prescribes: F = OR of the F bits, NRI = maximum NRI, type 24
+    (receivers ignore F and NRI; pion's payloader always sends 0x78) -/
 def stapHdr (nals : List Bytes) : UInt8 :=
   mkHdr (nals.foldl (fun a n => max a (match n with | [] => 0 | h :: _ => hF h)) 0)
         (nals.foldl (fun a n => max a (match n with | [] => 0 | h :: _ => hNri h)) 0) 24
@@ -73,7 +74,7 @@ def encFu (ind : UInt8) (typ : Nat) : Bool → List Bytes → List Bytes
 
 def Item.encode : Item → List Bytes
   | .single n => [n]
-  | .stapA ns => [stapHdr ns :: encStapBody ns]
+  | .stapA h ns => [h :: encStapBody ns]
   | .fuA h cs => encFu (mkHdr (hF h) (hNri h) 28) (hType h) true cs
 
 def encode (plan : List Item) : List Bytes := plan.flatMap Item.encode
@@ -114,7 +115,7 @@ def parseAux : Option (UInt8 × Nat × List Bytes) → List Bytes → Option (Li
       if 1 ≤ t ∧ t ≤ 23 then (parseAux none ps).map (Item.single p :: ·)
       else if t = 24 then
         match parseStap body with
-        | some ns => (parseAux none ps).map (Item.stapA ns :: ·)
+        | some ns => (parseAux none ps).map (Item.stapA h ns :: ·)
         | none => none
       else if t = 28 then
         match body with
